@@ -153,6 +153,115 @@ fn detail_history(image: &str, evs: &[Ev], h: &[usize], cold: bool) -> J {
   J::Arr(rows)
 }
 
+
+// ---------------------------------------------------------------- cache-pressure histories
+//
+// "All cache ages" includes a cache that has been emptied under memory pressure.  The image
+// below makes every block large (a bank full of one-byte instructions), so a few dozen
+// events fill the 8 MiB translation arena; the histories cycle through the banks at moving
+// entry addresses, with a variable number of leading events so that the moment the arena
+// runs low falls on every bank and on the fixed bank in turn.
+
+pub fn pressure_image() -> Vec<u8> {
+  let banks = 4usize;
+  let mut img = vec![0u8; banks * 0x4000];
+  let incs = [0x00u8, 0x3C, 0x0C, 0x1C]; // bank b: INC A / INC C / INC E
+  for b in 1..banks {
+    let base = b * 0x4000;
+    for o in 0..0x3FFD {
+      img[base + o] = incs[b];
+    }
+    img[base + 0x3FFD] = 0xC3; // JP 0150
+    img[base + 0x3FFE] = 0x50;
+    img[base + 0x3FFF] = 0x01;
+  }
+  // bank 0: 0x0150: INC D; JP 0150 (common block); a long fixed-bank block at 0x1000: INC B ... JP 0150
+  let blk = [0x14, 0xC3, 0x50, 0x01];
+  img[0x150..0x154].copy_from_slice(&blk);
+  for o in 0x1000..0x3F00 {
+    img[o] = 0x04;
+  }
+  img[0x3F00] = 0xC3;
+  img[0x3F01] = 0x50;
+  img[0x3F02] = 0x01;
+  // bank-select blocks at 0x0200 + 16*b: LD A,b; LD (2100),A; JP 0150
+  for b in 1..banks {
+    let at = 0x0200 + b * 16;
+    let code = [0x3E, b as u8, 0xEA, 0x00, 0x21, 0xC3, 0x50, 0x01];
+    img[at..at + code.len()].copy_from_slice(&code);
+  }
+  let h = world::header_bytes(0x13, 0x01, 0x02);
+  img[0x100..0x150].copy_from_slice(&h[0x100..0x150]);
+  img
+}
+
+/// (pc to run, name) events of pressure history number `index`
+pub fn pressure_history(index: u64, rounds: usize) -> Vec<(u16, String)> {
+  const ORDERS: [[usize; 3]; 6] = [[1, 2, 3], [1, 3, 2], [2, 1, 3], [2, 3, 1], [3, 1, 2], [3, 2, 1]];
+  let order = ORDERS[(index % 6) as usize];
+  let lead = (index / 6) as usize; // leading fixed-bank events shift the phase
+  let mut ev: Vec<(u16, String)> = Vec::new();
+  for i in 0..lead {
+    ev.push((0x1000 + i as u16, format!("run({:04x})", 0x1000 + i)));
+  }
+  for k in 1..=rounds {
+    for b in order.iter() {
+      ev.push(((0x0200 + b * 16) as u16, format!("bank({})", b)));
+      ev.push((0x4000 + k as u16, format!("run({:04x})", 0x4000 + k)));
+    }
+  }
+  // revisit everything once more in bank order 1,2,3 (stale entries surface here)
+  for k in 1..=rounds {
+    for b in 1..4usize {
+      ev.push(((0x0200 + b * 16) as u16, format!("bank({})", b)));
+      ev.push((0x4000 + k as u16, format!("run({:04x})", 0x4000 + k)));
+    }
+  }
+  ev
+}
+
+pub fn pressure_counts(tier: &str) -> (u64, usize) {
+  if tier == "quick" { (6 * 4, 6) } else { (6 * 16, 12) }
+}
+
+/// per-event digests of one pressure history (one u64 per event, chained)
+fn run_pressure(image: &str, index: u64, rounds: usize) -> Vec<u64> {
+  let mut core = progrun::fresh_core(image).expect("image loads");
+  core.registers.sp = 0xDFF0;
+  let mut out = Vec::new();
+  let mut ch = progrun::Chain::new();
+  for (pc, _) in pressure_history(index, rounds).iter() {
+    core.registers.ip = *pc as u32;
+    core.run_state = crate::emulator::RunState::Run;
+    core.run_code_block();
+    ch.small(&core);
+    out.push(ch.get());
+  }
+  out
+}
+
+pub fn run_pressure_cfg(image: &str, tier: &str, workers: usize) -> PoolResult {
+  let (n, rounds) = pressure_counts(tier);
+  // result slot layout: history i gets 256 slots (first differing event can be located)
+  let opts = PoolOpts { workers, chunk: 1, bitmap_bits: 1 << 12, result_words: (n * 256) as usize, samples_per_child: 1, ..PoolOpts::default() };
+  run_pool(
+    n,
+    &opts,
+    |_| (),
+    |_, case, ctx| {
+      let d = run_pressure(image, case, rounds);
+      for (i, v) in d.iter().enumerate().take(255) {
+        ctx.result(case * 256 + i as u64, *v);
+      }
+      ctx.result(case * 256 + 255, d.len() as u64);
+      ctx.count(0, d.len() as u64);
+      ctx.class(d.last().copied().unwrap_or(0) & 0xfff);
+      ctx.sample(|| J::obj().set("pressure_history", J::u(case)).set("events", J::u(d.len() as u64)));
+    },
+    |case, how| (format!("C03 build={} pressure-history={} crash={}", progrun::this_build(), case, how), J::obj().set("case", J::obj().set("pressure_history", J::u(case)))),
+  )
+}
+
 pub fn depth_for(tier: &str, cold: bool) -> usize {
   match (tier, cold) {
     ("quick", _) => 3,
@@ -200,6 +309,18 @@ pub fn worker(args: &[String]) -> i32 {
     let viol = J::Arr(r.violations.iter().map(|v| J::obj().set("key", J::s(v.key.as_str())).set("count", J::u(v.count)).set("detail", v.detail.clone())).collect());
     let meta = J::obj().set("violations", viol).set("machinery", J::Arr(r.machinery_errors.iter().map(|m| J::s(m.as_str())).collect())).set("events", J::u(r.counters[0]));
     if std::fs::write(format!("{}.json", args[5]), meta.to_string()).is_err() {
+      return 2;
+    }
+    return 0;
+  }
+  if args.len() >= 4 && args[0] == "pressure" {
+    let r = run_pressure_cfg(&args[2], &args[1], 3);
+    if progrun::write_u64s(&format!("{}.u64", args[3]), &r.results).is_err() {
+      return 2;
+    }
+    let viol = J::Arr(r.violations.iter().map(|v| J::obj().set("key", J::s(v.key.as_str())).set("count", J::u(v.count)).set("detail", v.detail.clone())).collect());
+    let meta = J::obj().set("violations", viol).set("machinery", J::Arr(r.machinery_errors.iter().map(|m| J::s(m.as_str())).collect())).set("events", J::u(r.counters[0]));
+    if std::fs::write(format!("{}.json", args[3]), meta.to_string()).is_err() {
       return 2;
     }
     return 0;
@@ -336,6 +457,61 @@ pub fn run(tier: &str) -> i32 {
         );
         reported.push(h);
       }
+    }
+    let _ = std::fs::remove_file(&image);
+  }
+  // ---- cache-pressure histories (the cache is emptied several times per history)
+  {
+    let image = world::write_rom_file(&pressure_image());
+    let prefix = format!("{}/c03_pressure", tmp);
+    let child = std::process::Command::new(&jit_bin).args(&["C03", "--worker", "pressure", tier, &image, &prefix]).spawn();
+    let r = run_pressure_cfg(&image, tier, 6);
+    let nojit = r.results.clone();
+    let (n, rounds) = pressure_counts(tier);
+    let c = rep.add_stage("cache-pressure-histories", &format!("{} scripted histories (6 bank orders x {} phase shifts, {} rounds) of bank-sized blocks that fill the 8 MiB arena several times; jit warm cache vs non-jit, digest after every event", n, n / 6, rounds), r);
+    histories += n;
+    events += c[0];
+    match child {
+      Ok(ch) => match ch.wait_with_output() {
+        Ok(o) if o.status.success() => match progrun::read_u64s(&format!("{}.u64", prefix)) {
+          Ok(jit) => {
+            if let Ok(meta) = progrun::parse_json_file(&format!("{}.json", prefix)) {
+              if let Some(vs) = meta.get("violations").and_then(|v| v.as_arr()) {
+                for v in vs {
+                  rep.add_violation(&v.str_of("key"), v.get("detail").cloned().unwrap_or(J::Null));
+                }
+              }
+              events += meta.int_of("events") as u64;
+            }
+            let mut reported = 0;
+            for h in 0..n {
+              let len = nojit[(h * 256 + 255) as usize];
+              for i in 0..len.min(255) {
+                states += 1;
+                let idx = (h * 256 + i) as usize;
+                if idx < jit.len() && jit[idx] != nojit[idx] {
+                  if reported < 4 {
+                    let evs = pressure_history(h, rounds);
+                    let name = &evs[i as usize].1;
+                    let prev: Vec<String> = evs[(i as usize).saturating_sub(3)..=(i as usize)].iter().map(|e| e.1.clone()).collect();
+                    rep.add_violation(
+                      &format!("C03 ctl=mbc3/4 cfg=jit-warm-vs-nojit pressure first-diff-at={}", if name.starts_with("bank") { "bank-write" } else if evs[i as usize].0 >= 0x4000 { "run(switchable-bank)" } else { "run(fixed-bank)" }),
+                      J::obj()
+                        .set("case", J::obj().set("pressure_history", J::u(h)).set("event_index", J::u(i)).set("event", J::s(name.as_str())).set("last_events", J::s(prev.join(";"))).set("bank_order_index", J::u(h % 6)).set("leading_events", J::u(h / 6)))
+                        .set("observed", J::s("per-event digest of the jit build with its persistent cache differs from the non-jit build")),
+                    );
+                  }
+                  reported += 1;
+                  break;
+                }
+              }
+            }
+          },
+          Err(e) => rep.machinery_error(e),
+        },
+        other => rep.machinery_error(format!("jit pressure worker failed: {:?}", other.map(|o| o.status))),
+      },
+      Err(e) => rep.machinery_error(format!("cannot start jit worker: {}", e)),
     }
     let _ = std::fs::remove_file(&image);
   }
